@@ -186,6 +186,90 @@ def intrinsic_obligations():
     return n, rows
 
 
+def intrinsic_compile_obligations():
+    """Every intrinsic wrapper compiled through the real compile_code, once with its value used and
+    once as a bare statement: the emitted line must be `<name> [<dest register>] <operands in order>`."""
+    from stationeers_pytrapic import intrinsics
+
+    from .. import comp
+
+    rows = []
+    n = 0
+    HDR = "from stationeers_pytrapic.symbols import *\n"
+    for name, fn in vars(intrinsics).items():
+        if not inspect.isfunction(fn) or fn.__module__ != intrinsics.__name__ or name in ("HASH", "STR"):
+            continue
+        op = name[:-1] if name.endswith("_") and name[:-1] in ic10.SIG else name
+        sig = ic10.SIG.get(op)
+        if sig is None or any(k in sig for k in "TNAC") or op in ("hcf",):
+            continue
+        wrapper_has_out = fn(*[0] * len(inspect.signature(fn).parameters)).output is not None if True else None
+        kinds = sig[1:] if sig.startswith("R") else sig
+        params = list(inspect.signature(fn).parameters)
+        if len(params) != len(kinds):
+            continue  # recorded by intrinsic_obligations (arity / output findings)
+        args, want = [], []
+        pre = []
+        for j, k in enumerate(kinds):
+            if k == "D":
+                args.append(f"d{j % 6}")
+                want.append(f"d{j % 6}")
+            elif k == "L":
+                args.append("LogicType.Setting")
+                want.append("Setting")
+            elif k == "S":
+                args.append("LogicSlotType.Occupied")
+                want.append("Occupied")
+            elif k == "B":
+                args.append("LogicBatchMethod.Sum")
+                want.append("Sum")
+            elif k == "M":
+                args.append("LogicReagentMode.Contents")
+                want.append("Contents")
+            else:
+                # a value operand loaded from its own stack cell, so that it is not folded
+                pre.append(f"a{j} = stack[{20 + j}]")
+                args.append(f"a{j}")
+                want.append(("cell", 20 + j))
+        call = f"{name}({', '.join(args)})"
+        HDRP = HDR + "\n".join(pre) + ("\n" if pre else "")
+        for form, src in (("value", HDRP + f"x = {call}\ndb.Setting = x\n"), ("statement", HDRP + f"{call}\ndb.Setting = 1\n")):
+            if form == "value" and not wrapper_has_out:
+                continue
+            n += 1
+            cap = comp.compile_capture(src, append_version=False)
+            if not cap.ok:
+                rows.append(dict(kind="intrinsic_compile_error", name=name, form=form, detail=(cap.error or "")[:120]))
+                continue
+            cands = [l.split() for l in cap.code.split("\n") if l.split() and l.split()[0] == op]
+            if op == "get":
+                cands = [c_ for c_ in cands if c_[2:3] != ["db"]]
+            line = (cands[0] if op == "s" else cands[-1]) if cands else None
+            if line is None:
+                rows.append(dict(kind="intrinsic_not_emitted", name=name, form=form, code=cap.code))
+                continue
+            ops = line[1:]
+            if sig.startswith("R") and wrapper_has_out:
+                if not ops or not ic10.REG_RE.match(ops[0]):
+                    rows.append(dict(kind="intrinsic_emitted_without_destination", name=name, form=form, line=" ".join(line)))
+                    continue
+                ops = ops[1:]
+            cell_of = {}
+            for l in cap.code.split("\n"):
+                t = l.split()
+                if len(t) == 4 and t[0] == "get" and t[2] == "db" and t[3].isdigit():
+                    cell_of.setdefault(t[1], int(t[3]))
+            got = []
+            for o_ in ops:
+                if ic10.REG_RE.match(o_) and o_ in cell_of:
+                    got.append(("cell", cell_of[o_]))
+                else:
+                    got.append(o_.split(".")[-1] if o_.split(".")[0] in ("LogicType", "LogicSlotType", "LogicBatchMethod", "LogicReagentMode") else o_)
+            if got != want:
+                rows.append(dict(kind="intrinsic_emitted_operands", name=name, form=form, line=" ".join(line), want=[str(w) for w in want]))
+    return n, rows
+
+
 def run(tier: str) -> int:
     rep = harness.Report(PROP, tier, "other")
     rep.assumptions = ASSUMPTIONS
@@ -193,6 +277,9 @@ def run(tier: str) -> int:
     ns, rs = structure_obligations()
     ne, re_ = enum_obligations()
     ni, ri = intrinsic_obligations()
+    nc, rc = intrinsic_compile_obligations()
+    ni += nc
+    ri = ri + rc
     for row in rs + re_ + ri:
         k = next((x for x in known if x.get("kind") == row["kind"] and row.get("name", row.get("cls", row.get("enum"))) in x.get("names", [])), None)
         if k is not None:
